@@ -107,3 +107,28 @@ func init() {
 		return Tuple{mkInt(64, uint64(s.Len)), Iface{}}
 	})
 }
+
+func init() {
+	// net/http.Error by its contract on the wrapped writer
+	reg("net/http.Error", func(e *Exec, fn *ssa.Function, a []Value) Value {
+		w := a[0].(Iface)
+		if w.T == nil {
+			e.goPanicRuntime("invalid memory address or nil pointer dereference")
+		}
+		it := fn.Params[0].Type().Underlying().(*types.Interface)
+		call := func(name string, args ...Value) Value {
+			for i := 0; i < it.NumMethods(); i++ {
+				if it.Method(i).Name() == name {
+					return e.callFunction(e.lookupMethod(w.T, it.Method(i)), append([]Value{w.V}, args...), nil, nil)
+				}
+			}
+			e.unsupported("http.Error stub: no method " + name)
+			return nil
+		}
+		call("Header")
+		call("WriteHeader", a[2])
+		msg := e.concat(a[1].(Str), e.strFromGo("\n"))
+		call("Write", e.convert(msg, types.Typ[types.String], types.NewSlice(types.Typ[types.Byte])))
+		return nil
+	})
+}
